@@ -14,7 +14,6 @@ from gearpy.units import (
     AngularAcceleration
 )
 from gearpy.utils import StopCondition
-import numpy as np
 from typing import Optional
 
 
@@ -192,18 +191,14 @@ class Solver:
             initial_time = self.__powertrain.time[-1].to(
                 time_discretization.unit
             )
-            final_time = initial_time + simulation_time + time_discretization
         else:
             initial_time = Time(value=0, unit=time_discretization.unit)
-            final_time = initial_time + simulation_time + time_discretization
             self.__powertrain.update_time(initial_time)
             self._compute_powertrain_variables(motor_control=motor_control)
 
-        for k in np.arange(
-            initial_time.value + time_discretization.value,
-            final_time.value,
-            time_discretization.value
-        ):
+        n_steps = round(simulation_time/time_discretization)
+        for step in range(1, n_steps + 1):
+            k = initial_time.value + step*time_discretization.value
 
             self.__powertrain.update_time(
                 Time(value=float(k), unit=time_discretization.unit)
